@@ -1,6 +1,6 @@
 """C20 -- operator descriptions, printing, tokens and indexing round-trip."""
 from vlib import gen
-from vlib.run import corr, do, impl, opt
+from vlib.run import corr, do, impl, opt, norm
 
 RULE = ('all strings x 4 phases for N<=3 (exhaustive) and random N<=12 through: repr -> parse, tokenize -> parse, letters / codes / dict / prefix '
         'variants, mixed prefix positions; indexing by int (negative too), slice, mask, index array; neg / rmul; both backends. '
@@ -62,7 +62,38 @@ def c_formats(ctx, args):
     return corr(ctx, be, 'parse_dict', [n, items])
 
 
+def _index_oracle(l, kind, ix):
+    """what plain list and phase arithmetic dictate (no model, no numpy): rows are [g, p]"""
+    L = len(l)
+    if kind == 'int':
+        return l[ix]
+    if kind == 'slice':
+        return l[slice(ix[0], ix[1])]
+    if kind == 'mask':
+        return [r for r, m in zip(l, ix) if m]
+    if kind == 'idx':
+        return [l[i] for i in ix]
+    if kind == 'neg':
+        return [[g, (p + 2) % 4] for g, p in l]
+    if kind == 'rmul':
+        return [[g, (p + ix) % 4] for g, p in l]
+    if kind == 'weight':
+        return [sum(1 for j in range(0, len(g), 2) if g[j] or g[j + 1]) for g, p in l]
+
+
 def c_index(ctx, args):
+    be, l, kind, ix = args[:4]
+    form = args[4] if len(args) > 4 else 'array'
+    op = {'int': 'get_int', 'slice': 'get_slice', 'mask': 'get_mask', 'idx': 'get_idx', 'neg': 'list_neg', 'rmul': 'list_rmul', 'weight': 'list_weight'}[kind]
+    ia = {'int': [l, ix], 'slice': [l, ix[0], ix[1]] if kind == 'slice' else None, 'mask': [l, ix, form] if be == 'np' else [l, ix],
+          'idx': [l, ix, form] if be == 'np' else [l, ix], 'neg': [l], 'rmul': [ix, l], 'weight': [l]}[kind]
+    want = _index_oracle(l, kind, ix)
+    try:
+        got = norm(impl(be).OPS[op](*ia))
+    except Exception as e:
+        got = 'RAISED ' + type(e).__name__
+    if got != norm(want):
+        return {'kind': 'oracle', 'where': '%s:%s vs list arithmetic' % (be, op), 'observed': got, 'expected': norm(want), 'tags': ['index_' + kind, form]}
     be, l, kind, ix = args[:4]
     if kind == 'int':
         return corr(ctx, be, 'get_int', [l, ix])
